@@ -910,7 +910,13 @@ pub fn round_c11(rt: &tokio::runtime::Runtime, hooks: &Hooks, seed: u64) -> Valu
         }
     }
     let other = if scope.is_some() { ZERO_CONTEXT } else { ctx_a };
+    // some rounds interleave time:N frames that have expired (virtual clock) but were never collected:
+    // they must neither be delivered nor counted against the limit
+    let with_expired = rng.chance(350);
     for i in 0..hist_matches {
+        if with_expired && i % 3 == 0 {
+            let _ = store.append(Frame::builder("m", scope.unwrap_or(ZERO_CONTEXT)).meta(json!({"expired": i})).ttl(TTL::Time(Duration::from_millis(1))).build());
+        }
         let f = store.append(Frame::builder("m", scope.unwrap_or(if i % 2 == 0 { ZERO_CONTEXT } else { ctx_a })).meta(json!({"i": i})).build()).unwrap();
         in_scope_ids.push(f.id.to_u128());
         if scope.is_some() && i % 3 == 0 {
@@ -940,6 +946,10 @@ pub fn round_c11(rt: &tokio::runtime::Runtime, hooks: &Hooks, seed: u64) -> Valu
         .maybe_context_id(scope)
         .build();
     let qs = opts.to_query_string();
+    if with_expired {
+        let now = std::time::SystemTime::now().duration_since(std::time::UNIX_EPOCH).unwrap().as_millis() as u64;
+        xs::verif::set_now(Some(now + 60_000));
+    }
     let mut rx = rt.block_on(store.read(opts));
     // live phase: append frames in scope (and noise), sequentially, after read() returned
     let live_n = if follow > 0 { n + 4 } else { 3 };
@@ -1081,6 +1091,7 @@ pub fn round_c11(rt: &tokio::runtime::Runtime, hooks: &Hooks, seed: u64) -> Valu
     if stored_synth > 0 {
         violation(&mut out, &["C11"], "store/synthetic-frame-was-stored", json!({"count": stored_synth}));
     }
+    xs::verif::set_now(None);
     crate::session::rm_dir(&dir);
     let split = if limit.is_some() { format!("hist={}/live={}", hist_expected.len().min(n), n.saturating_sub(hist_expected.len())) } else { "nolimit".into() };
     json!({
@@ -1093,7 +1104,7 @@ pub fn round_c11(rt: &tokio::runtime::Runtime, hooks: &Hooks, seed: u64) -> Valu
         "violations": out,
         "inconclusive": inconclusive,
         "nontrivial": true,
-        "shape": format!("n={}/hist={}/follow={}/tail={}/last={}/limit={}/{}", n, match hist_matches { 0 => "0".to_string(), x if x + 1 == n => "n-1".into(), x if x == n => "n".into(), x if x == n + 1 => "n+1".into(), _ => "150".into() }, follow, tail, use_last, use_limit, if scope.is_some() { "ctx" } else { "all" }),
+        "shape": format!("n={}/hist={}/follow={}/tail={}/last={}/limit={}/expired={}/{}", n, match hist_matches { 0 => "0".to_string(), x if x + 1 == n => "n-1".into(), x if x == n => "n".into(), x if x == n + 1 => "n+1".into(), _ => "150".into() }, follow, tail, use_last, use_limit, with_expired, if scope.is_some() { "ctx" } else { "all" }),
         "split": split,
     })
 }
